@@ -126,9 +126,14 @@ uint16_t k_from(int fam, uint64_t sel) {
 
 // KLL: independent statement of the documented capacity rule: level capacity = max(m, round(k * (2/3)^depth)),
 // total capacity for the largest number of levels a stream of n items can need (1 + floor(log2 n)).
+uint64_t kll_capacity_for_levels(uint32_t k, int levels);
 uint64_t kll_capacity_bound(uint32_t k, uint64_t n) {
   int levels = 1;
   while (levels < 60 && (n >> levels) != 0) ++levels;  // 1 + floor(log2 n) for n >= 1
+  return kll_capacity_for_levels(k, levels);
+}
+// the same rule for a given number of levels (the sketch reports its number of levels in to_string)
+uint64_t kll_capacity_for_levels(uint32_t k, int levels) {
   uint64_t total = 0;
   for (int depth = 0; depth < levels; ++depth) {
     unsigned __int128 num = static_cast<unsigned __int128>(2 * k) << depth;
@@ -335,6 +340,13 @@ struct Runner {
     } else if (F == F_KLL) {
       const uint64_t bound = kll_capacity_bound(q.get_k(), n);
       VF_CHECK(retained <= bound, "space-kll", ctx << "retained " << retained << " > total capacity " << bound << " for k and n=" << n);
+      // sharper: the capacity of the number of levels the sketch says it has (levels are only added when the sketch is full)
+      const std::string str = q.to_string();
+      const size_t lp = str.find("Levels         : ");
+      VF_CHECK(lp != std::string::npos, "space-kll", ctx << "to_string has no levels line");
+      const int levels = static_cast<int>(std::strtol(str.c_str() + lp + 17, nullptr, 10));
+      const uint64_t cap = kll_capacity_for_levels(q.get_k(), levels);
+      VF_CHECK(levels >= 1 && levels <= 61 && retained <= cap, "space-kll-levels", ctx << "retained " << retained << " > " << cap << ", the total capacity of a k = " << q.get_k() << " sketch with the reported " << levels << " levels");
     } else {
       const std::string str = q.to_string();
       const size_t p = str.find("Capacity items : ");
